@@ -50,6 +50,7 @@ class Overlay:
         self.proofs = {}      # (kind, fn, k) -> text
         self.attrs = {}       # fn -> attribute text spliced in front of the fn
         self.stubs = set()    # fns emitted as signature + external_body (R6): body dropped
+        self.aux_fns = []          # (fn name, serves): proof / spec / exec fns written in pre/post blocks, with the serves= of their overlay
         self.loop_templates = {}   # fn -> [dict(kind, regex, text, line)]: loop contracts keyed on the loop HEADER, not its ordinal
         self._parse()
 
@@ -78,6 +79,7 @@ class Overlay:
                 self.proofs.update(inc.proofs)
                 self.attrs.update(inc.attrs)
                 self.stubs |= inc.stubs
+                self.aux_fns += inc.aux_fns
                 for k_, v_ in inc.loop_templates.items():
                     self.loop_templates.setdefault(k_, []).extend(v_)
                 i += 1
@@ -103,7 +105,7 @@ class Overlay:
                         opts['noderive'] = True
                     else:
                         rest.append(p)
-                self.items.append(dict(file=rest[0], kind=rest[1], name=' '.join(rest[2:]), **opts))
+                self.items.append(dict(file=rest[0], kind=rest[1], name=' '.join(rest[2:]), serves=list(self.serves), **opts))
                 i += 1
             elif d in ('pre', 'post', 'contract', 'loop', 'proof_start', 'proof_end', 'loop_proof_start', 'loop_proof_end', 'loop_proof_after', 'loop_ghost_before', 'attr', 'proof_at', 'proof_before_tail', 'loop_each', 'loop_each_proof_start', 'loop_each_proof_end', 'loop_each_ghost_before'):
                 j = i + 1
@@ -115,6 +117,9 @@ class Overlay:
                     raise ExtractError('%s:%d: unterminated %s' % (self.path, i + 1, d))
                 text = '\n'.join(buf)
                 src_line = i + 2
+                if d in ('pre', 'post'):
+                    for mm in re.finditer(r'\bfn\s+(\w+)', rs.mask(text)):
+                        self.aux_fns.append((mm.group(1), list(self.serves)))
                 if d == 'pre':
                     self.pre.append((text, src_line))
                 elif d == 'post':
@@ -621,7 +626,7 @@ def build(overlay_path: str, repo: str, out_path: str):
             attrs = r5_attrs(it.attrs, log, where)
             t = transform_fn(it, spec['name'], ov, log, used)
             chunks.append(attrs + '/*@B %s %d %d*/' % (spec['file'], it.head_start, it.end) + t + '/*@E*/\n')
-            functions.append(dict(name=spec['name'], file=spec['file'], lines=list(it.lines), contract=spec['name'] in ov.contracts))
+            functions.append(dict(name=spec['name'], file=spec['file'], lines=list(it.lines), contract=spec['name'] in ov.contracts, serves=spec.get('serves', []), stub=spec['name'] in ov.stubs))
         elif spec['kind'] == 'impl':
             tyname = spec.get('as') or spec['name'].split()[-1]
             members = rs.impl_members(it)
@@ -642,7 +647,7 @@ def build(overlay_path: str, repo: str, out_path: str):
                 if kind == 'fn':
                     qual = '%s::%s' % (tyname, name)
                     t = transform_fn(mi, qual, ov, log, used)
-                    functions.append(dict(name=qual, file=spec['file'], lines=list(mi.lines), contract=qual in ov.contracts))
+                    functions.append(dict(name=qual, file=spec['file'], lines=list(mi.lines), contract=qual in ov.contracts, serves=spec.get('serves', []), stub=qual in ov.stubs))
                 else:
                     t = src[mi.head_start:mi.end]
                 chunks.append('    ' + attrs + '/*@B %s %d %d*/' % (spec['file'], mi.head_start, mi.end) + t + '/*@E*/\n')
@@ -697,7 +702,7 @@ def build(overlay_path: str, repo: str, out_path: str):
         for m in TAG_RE.finditer(ln):
             tags.append(dict(line=i, id=m.group(1), props=[p for p in m.group(2).strip().split(',') if p]))
     return dict(log=log, functions=functions, tags=tags, regions_checked=n_checked, kernel=ov.name, serves=ov.serves,
-                n_lines=len(out_lines))
+                aux_fns=[dict(name=n, serves=sv) for n, sv in ov.aux_fns], n_lines=len(out_lines))
 
 
 if __name__ == '__main__':
